@@ -6,7 +6,7 @@
    condition the property is false of the code: known finding D12). *)
 From Coq Require Import List Bool ZArith Lia.
 Import ListNotations.
-From Rosed Require Import Base.ListX Gem.Segment Gem.GString Model.Tb Model.Manip Model.Table Proofs.SeamP Proofs.C13P Proofs.C16P Proofs.C16Q.
+From Rosed Require Import Base.ListX Gem.Segment Gem.GString Model.Tb Model.Manip Model.Table Proofs.SeamP Proofs.C13P Proofs.C16P Proofs.C16Q Proofs.C16R.
 Open Scope Z_scope.
 
 (* the surplus width is distributed exactly: quotient to each of the first n columns, one more to the first (s mod n) *)
@@ -40,3 +40,20 @@ Theorem C16_rectangular : forall (C : Classifier) (K : ClassifierOk) (U : Upper)
   Forall (fun l => glen l = Z.max width (min_table_width data border)) (b_lines (make_table data width sep header border charSet)).
 Proof. intros C K U. exact table_rectangular. Qed.
 Print Assumptions C16_rectangular.
+
+(* column boundaries at the same offsets on every row: for every row (header or body, bordered or
+   not) whose cells have the room the layout relies on, and every k, the line is a part exactly
+   column_offset wide - a function of the column widths only - followed by the rendering of
+   columns k, k+1, ...; whatever the cells contain *)
+Theorem C16_column_offsets : forall (C : Classifier) (K : ClassifierOk) (U : Upper) cs row y hdr border ws k,
+  cs_vert cs = [y] -> plain y -> (k <= length ws)%nat -> fits border hdr row ws 0 ->
+  let line := (if border then cs_vert cs else []) ++ build_row cs row ws 0 hdr border in
+  exists P, line = P ++ build_row cs row (skipn k ws) k hdr border /\ glen P = column_offset border ws k.
+Proof. intros C K U. exact row_column_offsets. Qed.
+Print Assumptions C16_column_offsets.
+
+(* empty data, or only empty rows, produce no output *)
+Theorem C16_no_cells : forall (C : Classifier) (U : Upper) data width sep header border charSet,
+  Forall (fun r => r = []) data -> b_lines (make_table data width sep header border charSet) = [].
+Proof. intros C U. exact make_table_empty_rows. Qed.
+Print Assumptions C16_no_cells.
